@@ -823,3 +823,7 @@ def run(ctx, shard):
         ctx.extra['unseeded_generators_seen_in_seeded_calls'] = mon.leaks
     finally:
         mon.uninstall()
+
+
+# thorough tier: every random shard is run this many times with independent random streams (see vmon/runner.py get_shards)
+THOROUGH_REPEAT = 6
